@@ -1008,9 +1008,15 @@ func lshTerms(c *Ctx, lsh *ssa.Function, bitsField, msbField string) {
 			nStores++
 			want := map[string]bool{key(term{I, nF, false}): true}
 			src := I.add(q, -1)
-			if pf.hasIneq(src.add(linConst(1), 1)) { // i-q >= 0
+			holds := func(f linForm) bool { // f > 0 on this path (a constant form decides itself)
+				if f.OK && len(f.Coef) == 0 {
+					return f.K > 0
+				}
+				return pf.hasIneq(f)
+			}
+			if holds(src.add(linConst(1), 1)) { // i-q >= 0
 				want[key(term{src, r, false})] = true
-				if pf.hasIneq(src) || pf.hasIneq(src.add(linConst(-1), 1).add(linConst(1), 1)) { // i-q-1 >= 0
+				if holds(src) || holds(src.add(linConst(-1), 1).add(linConst(1), 1)) { // i-q-1 >= 0
 					want[key(term{src.add(linConst(-1), 1), linConst(64).add(r, -1), true})] = true
 				}
 			}
